@@ -139,6 +139,9 @@ Proof.
   - assert (d * (l + 2) <= d * q) by (apply Nat.mul_le_mono_l; lia). lia.
 Qed.
 
+Lemma mul_pred a d : 0 < a -> a * d = (a - 1) * d + d.
+Proof. intros H. destruct a; [lia|]. replace (S a - 1) with a by lia. cbn [Nat.mul]. lia. Qed.
+
 Lemma div_ceil_0 d : d <> 0 -> div_ceil 0 d = 0.
 Proof. intros H. unfold div_ceil. rewrite Nat.div_0_l, Nat.mod_0_l by exact H. reflexivity. Qed.
 
